@@ -21,8 +21,8 @@ import AmaranthVerif.Spec.RtlilWF
   pattern (a case without patterns always matches, `-` matches either bit); right-hand sides read
   the values at the start of the process.
 * undefined values (`x` constants, `INIT_VALUE` of read ports, reads outside the memory, division
-  by zero, write ports of different clocks hitting the same bits in one event) are resolved to all-zeros or
-  all-ones (one or the other order of the clock groups) as directed by `xres`; the driver evaluates both
+  by zero) are resolved to all-zeros or all-ones as directed by `xres`; the driver evaluates both; write ports of
+  hitting the same bits of a row with different data in one event are reported (`runTraceC`) and end the comparison
   and reports whether an observation depends on the choice.
 
 Not evaluated (an error if present): `$tribuf`, `$anyconst/$anyseq/$allconst/$allseq`,
@@ -492,8 +492,9 @@ def initState (s : Sim) (inputs : List (String × Nat)) : Except String State :=
 def edge (pol : Bool) (c0 c1 : Nat) : Bool :=
   if pol then c0 % 2 == 0 && c1 % 2 == 1 else c0 % 2 == 1 && c1 % 2 == 0
 
-/-- one event: the listed top-level inputs take new values -/
-def step (s : Sim) (st : State) (changes : List (String × Nat)) : Except String State := do
+/-- one event: the listed top-level inputs take new values; the flag says whether write ports of different
+collided (see below) -/
+def stepC (s : Sim) (st : State) (changes : List (String × Nat)) : Except String (State × Bool) := do
   let c := s.ctx
   let clk0 (sig : SigSpec) := specVal c st.env sig
   let env1 := changes.foldl (fun (env : Env) iv => env.insert iv.1 (iv.2 % 2 ^ c.width iv.1)) st.env
@@ -506,13 +507,16 @@ def step (s : Sim) (st : State) (changes : List (String × Nat)) : Except String
     else none)
   -- write ports that fire: (memory, port id, address, data, enable mask)
   let firing := s.flat.wrs.filter (fun w => edge w.pol (clk0 w.clk) (specVal c e1 w.clk))
-  -- Write ports of one clock keep their port order (later ports win, as in the simulator's per-domain process).
-  -- No write port has priority over another (`PRIORITY_MASK 0`), so when ports of *different* clocks fire in the
-  -- same event and hit the same bits the result is undefined in the RTLIL: the clock groups are applied in one
-  -- order under `xres = false` and in the opposite order under `xres = true`, like every other undefined value.
-  let keys := firing.foldl (fun (ks : List (SigSpec × Bool)) w => if ks.contains (w.clk, w.pol) then ks else ks ++ [(w.clk, w.pol)]) []
-  let grouped := (if c.xres then keys.reverse else keys).flatMap (fun k => firing.filter (fun w => (w.clk, w.pol) == k))
-  let writes := grouped.map (fun w => (w.mem, w.portid, specVal c e1 w.addr, specVal c e1 w.data, specVal c e1 w.en))
+  -- write ports that fire: (memory, port id, address, data, enable mask), in port order (within one clock later
+  -- ports win, as in the simulator's per-domain process)
+  let writes := firing.map (fun w => (w.mem, w.portid, specVal c e1 w.addr, specVal c e1 w.data, specVal c e1 w.en))
+  -- No write port has priority over another (amaranth emits `PRIORITY_MASK 0` on every port, and this evaluator reads no other): when two ports fire in the same event and write different data to the same bits of a row, the
+  -- RTLIL leaves the result undefined (and the simulator's result, or what a transparent read port forwards, depends
+  -- on process order / the order of its transparency list). Reported to the caller, who stops comparing.
+  let collision := firing.any (fun w1 => firing.any (fun w2 =>
+    w1.mem == w2.mem && w1.portid != w2.portid && specVal c e1 w1.addr == specVal c e1 w2.addr &&
+    (let both := Nat.land (specVal c e1 w1.en) (specVal c e1 w2.en)
+     Nat.land both (Nat.xor (specVal c e1 w1.data) (specVal c e1 w2.data)) != 0)))
   -- synchronous read ports
   let rdUpdates := s.flat.rds.filterMap (fun r =>
     if edge r.pol (clk0 r.clk) (specVal c e1 r.clk) && specVal c e1 r.en % 2 == 1 then
@@ -540,7 +544,11 @@ def step (s : Sim) (st : State) (changes : List (String × Nat)) : Except String
         m.insert mem (arr.set! waddr new)
       else m
     | none => m) st1.mems
-  settle s ⟨env3, mems'⟩
+  let st' ← settle s ⟨env3, mems'⟩
+  return (st', collision)
+
+def step (s : Sim) (st : State) (changes : List (String × Nat)) : Except String State := do
+  return (← stepC s st changes).1
 
 def observe (s : Sim) (st : State) (points : List String) : List Nat :=
   points.map (fun n => st.env.getD n 0 % 2 ^ s.ctx.width n)
@@ -555,5 +563,21 @@ def runTrace (s : Sim) (inputs : List (String × Nat)) (events : List (List (Str
     st ← step s st ev
     out := out ++ [observe s st points]
   return out
+
+/-- … together with the index of the first event in which two write ports collide -/
+def runTraceC (s : Sim) (inputs : List (String × Nat)) (events : List (List (String × Nat))) (points : List String) :
+    Except String (List (List Nat) × Option Nat) := do
+  let st0 ← initState s inputs
+  let mut st := st0
+  let mut out := [observe s st0 points]
+  let mut first : Option Nat := none
+  let mut k := 0
+  for ev in events do
+    let (st', c) ← stepC s st ev
+    st := st'
+    k := k + 1
+    if c && first.isNone then first := some k
+    out := out ++ [observe s st points]
+  return (out, first)
 
 end Amaranth.Rtlil
